@@ -8,7 +8,7 @@
 EXTENDS Props
 
 Call(op) == [NoCall EXCEPT !.op = op]
-NoShadow == [mode |-> "none", st |-> New("client", "v311", 16)]
+NoShadow == [mode |-> "none", hf |-> FALSE, st |-> New("client", "v311", 16)]
 
 (* configuration scope copied into a fresh object "with the same options" *)
 FreshLike(s, ver) ==
